@@ -9,6 +9,15 @@ R39b header and data rows come from the same tag sequence (self.tags) with the s
      the header and vanish from a row, or vice versa).
 R39c MARK_SEPARATOR (joins several marks into one field) contains neither the archiver delimiter nor
      its escape character nor a line break.
+R39d the read-back finds the stopped run: in ArchiverTag.on_stop no read of `self.run_id` is reachable from the call of the base
+     class's on_stop (EventListener.on_stop clears it) - `last_run_id` must be taken before; read_last_run_archive asserts it.
+R39e every open() in archiver.py passes newline='' (the csv module's contract for writers *and* readers: without it a CR
+     inside a value is read back as LF).
+R39f archive() may be destructive (MarkTag hands its marks out once): the values handed out since the last periodic row are
+     written by a final row in on_stop, before the file is released (write_tags_row precedes `file_path = None` /
+     `file_ready = False`).
+R39g a row whose write fails is not dropped silently once archive() has handed the values out (today an `except Exception`
+     around writerow logs and goes on: a Mark text with a lone surrogate loses its whole row - open known finding).
 Decides writer agreement; the byte-exact behaviour of Python's csv module is trusted.
 """
 from __future__ import annotations
@@ -145,3 +154,98 @@ def run(ctx) -> None:
     else:
         ctx.fail("R39c", None, ms, inst, f"the separator contains {bad}: joined marks are split into several columns or escaped",
                  function=ti.name, file=ti.relpath)
+    _file_rules(ctx, m)
+
+
+def _file_rules(ctx, m) -> None:
+    from ..util import cfg_of
+    prog = ctx.prog
+    ctx.rule("R39d", "last_run_id is taken before the base class clears run_id")
+    ctx.rule("R39e", "every open() of the archiver passes newline=''")
+    ctx.rule("R39f", "a final row is written before the file is released")
+    ctx.rule("R39g", "a failing row write is not swallowed after archive() handed the values out")
+    cls = m.classes.get("ArchiverTag")
+    if cls is None or "on_stop" not in cls.methods:
+        raise AnchorError("ArchiverTag.on_stop not found")
+    f = cls.methods["on_stop"]
+    ctx.analysed(f)
+    g = cfg_of(f)
+    base = prog.func("openpectus.lang.exec.events:EventListener.on_stop")
+    clears = any(isinstance(st, ast.Assign) and norm(st.targets[0]) == "self.run_id" and isinstance(st.value, ast.Constant)
+                 and st.value.value is None for st in ast.walk(base.node))
+    supers = [n for n in g.nodes if any(isinstance(c.func, ast.Attribute) and c.func.attr == "on_stop" and isinstance(c.func.value, ast.Call)
+                                        and norm(c.func.value.func) == "super" for c in n.calls())]
+    inst = "ArchiverTag.on_stop: self.run_id is not read after super().on_stop()"
+    if not clears or not supers:
+        ctx.ok("R39d", inst + " (the base class does not clear it / is not called)")
+    else:
+        after = g.search([s.id for s in supers], lambda n: False, collect=True) - {s.id for s in supers}
+        late = [n for n in g.nodes if n.id in after and any(isinstance(x, ast.Attribute) and norm(x) == "self.run_id"
+                                                            and isinstance(x.ctx, ast.Load) for x in n.walk())]
+        if late:
+            ctx.fail("R39d", f, late[0].ast, inst, f"`{late[0].text()[:60]}` runs after EventListener.on_stop has set run_id to None: last_run_id "
+                     "is None for every run, read_last_run_archive(run_id) fails its assertion and the archive cannot be read back "
+                     "(the run-stopped message is built from it)")
+        else:
+            ctx.ok("R39d", inst)
+    # R39e
+    n_open = 0
+    for fn in list(cls.methods.values()) + list(m.functions.values()):
+        for c in ast.walk(fn.node):
+            if isinstance(c, ast.Call) and norm(c.func) == "open":
+                n_open += 1
+                mode = c.args[1].value if len(c.args) > 1 and isinstance(c.args[1], ast.Constant) else next(
+                    (k.value.value for k in c.keywords if k.arg == "mode" and isinstance(k.value, ast.Constant)), "r")
+                inst = f"{fn.short}: open(..., {mode!r}) passes newline=''"
+                nl = next((k.value for k in c.keywords if k.arg == "newline"), None)
+                if "b" in str(mode) or (isinstance(nl, ast.Constant) and nl.value == ""):
+                    ctx.ok("R39e", inst)
+                else:
+                    ctx.fail("R39e", fn, c, inst, "universal-newline translation is on for this file object: a carriage return inside a "
+                             "value (escaped by the writer, e.g. a Mark text `a\\rb`) is read back as a line feed, and on writing a "
+                             "line end inside a value would be rewritten")
+    if n_open < 4:
+        raise AnchorError(f"only {n_open} open() calls found in archiver.py (floor 4)")
+    # R39f
+    destructive = []
+    tagc = prog.cls("openpectus.lang.exec.tags:Tag")
+    for c in [tagc] + tagc.all_subclasses():
+        a = c.methods.get("archive")
+        if a is None:
+            continue
+        assigns = any(isinstance(st, (ast.Assign, ast.AugAssign)) and any(
+            isinstance(t, ast.Attribute) and isinstance(t.value, ast.Name) and t.value.id == "self"
+            for t in (st.targets if isinstance(st, ast.Assign) else [st.target])) for st in ast.walk(a.node))
+        sets = any(isinstance(x, ast.Call) and call_attr(x) in ("set_value", "reset", "clear") for x in ast.walk(a.node))
+        if assigns or sets:
+            destructive.append(c.name)
+    inst = "ArchiverTag.on_stop: write_tags_row() before the file is released"
+    rel = [n for n in g.nodes if n.kind == "stmt" and isinstance(n.ast, ast.Assign) and norm(n.ast.targets[0]) in ("self.file_path", "self.file_ready")]
+    if not destructive:
+        ctx.ok("R39f", inst + " (no destructive archive())")
+    elif not rel:
+        raise AnchorError("ArchiverTag.on_stop: release of file_path / file_ready not found")
+    else:
+        pth = g.search(None, lambda n: any(n.id == r.id for r in rel), blocked=lambda n: any(call_attr(c) == "write_tags_row" for c in n.calls()),
+                       follow_exc=False)
+        if pth is None:
+            ctx.ok("R39f", inst, {"rule": "R39f", "destructive_archive": destructive})
+        else:
+            ctx.fail("R39f", f, rel[0].ast, inst, f"{destructive} hand their value out once (archive() resets it) and rows are written only "
+                     "every data_log_interval: what was handed to nobody yet when the run stops is in no file - the next run's header "
+                     "writer consumes it", pth)
+    # R39g
+    w = cls.methods.get("write_tags_row")
+    if w is None:
+        raise AnchorError("ArchiverTag.write_tags_row not found")
+    ctx.analysed(w)
+    for t in ast.walk(w.node):
+        if isinstance(t, ast.Try) and any(isinstance(c, ast.Call) and call_attr(c) == "writerow" for b in t.body for c in ast.walk(b)):
+            for h in t.handlers:
+                swallow = not any(isinstance(x, ast.Raise) for x in ast.walk(h))
+                inst = "write_tags_row: a failing writerow is not swallowed"
+                if swallow:
+                    ctx.fail("R39g", w, h, inst, "the values of this row were already handed out by archive() (marks are reset); the handler "
+                             "logs and goes on, so the row - and the mark text in it - is in no file")
+                else:
+                    ctx.ok("R39g", inst)
